@@ -2,19 +2,19 @@
 
 The index-map theorems (in-bounds halves of C01/C03/C04/C06, closure under composition, the
 evaluator's accesses, room of inferred result containers) are Properties_C02.v.  The correspondence
-re-runs the case streams of C03, C04, C05, C06, C10 and C16 through the SANITIZER builds (ASan + UBSan,
+re-runs the case streams of C03, C04, C05, C06, C10, C12 (SIMD evaluators), C16 and C19 (container histories, thinned) through the SANITIZER builds (ASan + UBSan,
 asserts on; std::vector buffers are read through .at(), so an out-of-range index is also caught as
 std::out_of_range) and flags exactly the memory events: an accepted argument (spec is a value) whose
 evaluation traps (signal, sanitizer report, std::out_of_range, bad_alloc).  Wrong VALUES are not C02's
 business (they are C03/C04/C16's)."""
-import re
+import re, zlib
 from collections import Counter
-from harness.props import c03, c04, c05, c06, c10, c16
+from harness.props import c03, c04, c05, c06, c10, c12, c16, c19
 
 ID = "C02"
 MODEL_MODULES = ["Base", "Index"]          # own runner unused: every case borrows its source property's runner
 HANDLERS = ["h_c01.ml"]
-SOURCES = {"c03": c03, "c04": c04, "c05": c05, "c06": c06, "c10": c10, "c16": c16}
+SOURCES = {"c03": c03, "c04": c04, "c05": c05, "c06": c06, "c10": c10, "c12": c12, "c16": c16, "c19": c19}
 CLAIM = dict(
     text=("Kernel-checked for every dimension and extent: an in-bounds multi-index addresses a buffer position below the buffer length "
           "in either layout; every source index produced by reshape / flatten / expand_dims / squeeze / atleast_nd / transpose / "
@@ -23,11 +23,11 @@ CLAIM = dict(
           "under view composition of any depth; every step of the evaluator reads an index of the view's shape and writes below the "
           "buffer length; result containers inferred from sound static knowledge have room (C11). Refuted: repeat with a negative "
           "axis. Tied to the C++ by re-running the C03, C04, C05 (slicing), C06, C10 (evaluation, both resolvers, supplied outputs) and C16 case streams through "
-          "ASan+UBSan builds with asserts on and .at()-checked buffers: an accepted argument must never trap."),
+          "and the C12 (SIMD evaluator loads/stores incl. tails) and C19 (utl containers: copy / grow / shrink histories) streams through ASan+UBSan builds with asserts on and .at()-checked buffers: an accepted argument must never trap."),
     ref="5.2", technique="Coq proof (in-bounds index maps, composition by induction) + sanitizer-build differential runs",
     extra="Partial: real memory safety of the C++ objects (lifetimes, pointer arithmetic inside utl::*, SIMD loads: see C12/C19) is "
           "observed by the sanitizers on the explored cases, not proved; hooks in the library are not used (ASan + .at() give the events).")
-RULE = ("the quick/thorough case streams of C03, C04, C05, C06, C10 and C16 (their rules apply), sanitizer flavour only; a case counts when its "
+RULE = ("the quick/thorough case streams of C03, C04, C05, C06, C10, C12, C16 and every 6th case of C19 (their rules apply), sanitizer flavour only; a case counts when its "
         "arguments are accepted (spec is a value); non-trivial as defined by the source property")
 THEOREM_STATUS = {"proved": ["C02_offsets_inside_buffer", "C02_rearranging_views_in_bounds", "C02_tile_in_bounds",
                              "C02_repeat_in_bounds_on_domain", "C02_roll_in_bounds", "C02_pad_in_bounds", "C02_take_in_bounds_on_domain",
@@ -44,6 +44,7 @@ def model_for(dkey):
 
 
 def drivers(tier):
+    c06.SKIP_GENERATED = True      # only sanitizer flavours are borrowed; C06's generated kind-pair units have none
     out = {}
     for name, mod in SOURCES.items():
         for k, specs in mod.drivers(tier).items():
@@ -53,12 +54,14 @@ def drivers(tier):
 
 
 def gen_cases(rng, tier):
+    c06.SKIP_GENERATED = True
     out = []
     have = set(drivers(tier))
     for name, mod in SOURCES.items():
         for stream, line, k in mod.gen_cases(rng, tier):
             key = "%s:%s" % (name, k)
             if key not in have: continue
+            if name == "c19" and zlib.crc32(line.encode()) % 6: continue      # C19's history stream is large: every 6th case
             _src_of[line] = name
             out.append((name + "/" + stream, line, key))
     return out
